@@ -39,19 +39,28 @@ Theorem C18_resolveInFile_terminates : forall G fn po checked f fuel,
 Proof. exact resolveInFile_terminates_lemma. Qed.
 Print Assumptions C18_resolveInFile_terminates.
 
+(* the weak flag of an import plays no part: clearing it on every import of every file (unweak)
+   changes no answer of any resolver; with C18_find_iff_visible, whose visible set treats a weak
+   import like any other direct import and a public import as public whatever its weak flag *)
+Theorem C18_weak_flag_irrelevant : forall G f q,
+  resolver_find (unweak G) (unweak_file f) q = resolver_find G f q.
+Proof. exact weak_flag_irrelevant_lemma. Qed.
+Print Assumptions C18_weak_flag_irrelevant.
+
 (* the public closure used by visible is the reflexive-transitive closure of public import *)
 Theorem C18_pub_closure_is_rt_closure : forall G a b,
   pub_closure G a b <-> clos_refl_trans_1n N (pub_edge G) a b.
 Proof. exact pub_closure_rt. Qed.
 Print Assumptions C18_pub_closure_is_rt_closure.
 
-(* non-vacuity: a graph with a cycle through public imports (1 -> 2 -> 1); from file 0 the
+(* non-vacuity: a graph with a cycle through public imports (1 -> 2 -> 1) and weak flags on the
+   direct import of 0, on the public edge 2 -> 1 and on the non-public edge 2 -> 3; from file 0 the
    elements of 2 are found through the public edge, those of 3 (a non-public import of 2) are not *)
 Example C18_nonvacuous :
   graph_ok ex_G = true /\
-  resolver_find ex_G (mkV 0 [(1, false)] [] [])%N (QName 5) = VFound 2 5 /\
-  resolver_find ex_G (mkV 0 [(1, false)] [] [])%N (QName 7) = VNotFound /\
-  resolver_find ex_G (mkV 0 [(1, false)] [] [])%N (QExt 9 100) = VFound 2 6 /\
-  resolver_find ex_G (mkV 0 [(1, false)] [] [])%N (QPath 3) = VNotFound /\
-  resolver_find ex_G (mkV 2 [(1, true); (3, false)] [5] [(9, 100%Z, 6)])%N (QPath 3) = VFound 3 3.
+  resolver_find ex_G (mkV 0 [(1, false, true)] [] [])%N (QName 5) = VFound 2 5 /\
+  resolver_find ex_G (mkV 0 [(1, false, true)] [] [])%N (QName 7) = VNotFound /\
+  resolver_find ex_G (mkV 0 [(1, false, true)] [] [])%N (QExt 9 100) = VFound 2 6 /\
+  resolver_find ex_G (mkV 0 [(1, false, true)] [] [])%N (QPath 3) = VNotFound /\
+  resolver_find ex_G (mkV 2 [(1, true, true); (3, false, true)] [5] [(9, 100%Z, 6)])%N (QPath 3) = VFound 3 3.
 Proof. exact visibility_example. Qed.
